@@ -54,8 +54,9 @@ ASSUMPTIONS = [
     '(a description with "_x" and "x" in one module makes two wire parameters share one cache key: outside the property)',
     're: callbacks call back into the client only with register_callback / unregister_callback, from invocations made by '
     'the dispatch of a message (immediate invocations made by a registration and handleError invocations only return or '
-    'raise); a callback that another callback unregisters never raises UnregisterCallback (the implementation then raises '
-    'ValueError from cblist.remove and aborts the dispatch: observation in notes/C12.md, ReModel.rbad); msgs / conc: '
+    'raise); a callback that some callback unregisters from inside is not registered from inside a callback (an inner '
+    'unregister_callback that leaves the dispatched list empty pops the dict entry, the dispatch then holds an orphaned list '
+    'and a re-registered callback raising UnregisterCallback stays registered: observation in notes/C12.md); msgs / conc: '
     'callbacks do not call back into the client',
     'datatype.import_value/export_value enter the model as tables computed by a specification-side importer/exporter '
     'written from the SECoP datatype definitions (harness/props/C12.py spec_import/spec_export); payloads whose '
@@ -966,6 +967,11 @@ FINDING_CLASSIFIERS = {
     # before the released caller ran: only failures that are nothing but the effect of such a write (c12_conc.fallback_writes)
     'read_error_fallback_after_later_update': lambda case, obs, f: case['kind'] == 'conc'
     and _conc().is_read_error_fallback(case, obs, f),
+    # (fixed in /repo by 4741ef2) callback A unregisters B during a dispatch, B (still in the copied list) raises
+    # UnregisterCallback: `cblist.remove(B)` raised ValueError out of callback(), the remaining callbacks and levels missed
+    # the message and the handleError callbacks got the ValueError
+    'unregister_then_oneshot': lambda case, obs, f: case['kind'] == 're'
+    and f['class'] in ('callback-count', 'handleError-unexpected') and _re().unregistered_then_oneshot(case, obs),
 }
 
 
